@@ -1,7 +1,7 @@
 """C09"""
 PROPERTY = "C09"
 LEVEL = "proof"
-FUNCTIONS = []
+FUNCTIONS = ['uxarray.grid.intersections.fast_constant_lat_intersections']
 STANDINS = ["subsets"]
 ASSUMPTIONS = []
 EXPLANATION = ""
